@@ -87,6 +87,56 @@ def x_cell_lookup(x: int, y: int, z: int) -> bool:
     return hx.end(True)
 
 
+def rows_follow_components(x: int, y: int, v0: int, v1: int) -> bool:
+    """
+    post: _
+    """
+    # looking a cell up returns that very cell's row with ALL its current cell-component values: after components were
+    # added and removed, and independently of another world of the same shape (pandas contract stand-in)
+    hx.begin()
+    w, h, d = hx.P['shape']
+    if not (0 <= x < max(w, 1) and 0 <= y < max(h, 1)):
+        return hx.end(True)
+    cx = 0 if x == 0 else 1 if x == 1 else 2
+    cy = 0 if y == 0 else 1 if y == 1 else 2
+    with patched_pandas():
+        m = Model(logger=NULL_LOGGER)
+        a = Env.DiscreteWorld(m, w, h, d)
+        b = Env.DiscreteWorld(m, w, h, d)              # a second world of the same shape
+        n = len(a.cells)
+        i = cy * max(w, 1) + cx
+        a.add_cell_component("rain", [v0 + k for k in range(n)])
+        b.add_cell_component("slope", [v1 + k for k in range(n)])
+        r1 = a.get_cell(cx, cy, 0)
+        if sorted(r1.keys()) != ["pos", "rain"] or r1["rain"] != v0 + i or tuple(r1["pos"]) != (cx, cy, 0):
+            return hx.end(hx.fail("row of a cell", got=dict(r1), cell=(cx, cy, 0)))
+        a.add_cell_component("soil", [7] * n)
+        a.remove_cell_component("rain")
+        r2 = a.get_cell(cx, cy, 0)
+        hx.reach('looked_up_twice')
+        if sorted(r2.keys()) != ["pos", "soil"] or r2["soil"] != 7:
+            return hx.end(hx.fail("row of a cell after components were added/removed (stale row?)", got=dict(r2)))
+        rb = b.get_cell(cx, cy, 0)
+        if sorted(rb.keys()) != ["pos", "slope"] or rb["slope"] != v1 + i:
+            return hx.end(hx.fail("row of the same cell in another world of the same shape", got=dict(rb)))
+    return hx.end(True)
+
+
+def id_alias(x: int, y: int, w: int, z: int, h: int) -> bool:
+    """
+    pre: w >= 0 and h >= 0 and x >= 0 and y >= 0 and z >= 0
+    post: _
+    """
+    # the deprecated public alias of the id function denotes the same function
+    import warnings
+    hx.begin()
+    hx.reach('called')
+    with warnings.catch_warnings():
+        warnings.simplefilter("ignore")
+        got = Env.discreteGridPosToID(x, y, w, z, h)
+    return hx.end(got == Env.discrete_grid_pos_to_id(x, y, w, z, h) or hx.fail("alias differs", args=(x, y, w, z, h)))
+
+
 BOUNDS = {"id formula (K)": "all shapes w,h,d >= 0 (non-linear, no bound), all in-grid coordinates",
           "table inverse (K)": "every concrete shape with extents 0..N (N = 4 quick / 8 thorough) through the real constructor and pandas table",
           "get_cell (K)": "all shapes, all integer coordinates, list-backed cells", "X fallback": "extents 0..2/3"}
@@ -106,6 +156,9 @@ def obligations(tier):
         K("id_formula", k_id_formula, timeout=120, encoded=enc[:1], bounds={"shape": "all w,h,d >= 0"}),
         K("table_inverse", k_table_inverse, parts=[{"N": N}], timeout=120, encoded=enc, bounds={"extents": "0..%d" % N}),
         K("get_cell", k_get_cell, timeout=120, encoded=enc[:2], bounds={"shape, coordinates": "all ints"}),
+        X("rows_follow_components", rows_follow_components, parts=[{"shape": sh} for sh in ([3, 2, 0], [2, 0, 0], [2, 2, 1])],
+          labels=("looked_up_twice",), timeout=600, encoded=enc[1:] + (Env.DiscreteWorld.add_cell_component, Env.DiscreteWorld.remove_cell_component)),
+        X("id_alias", id_alias, labels=("called",), timeout=300, encoded=(Env.discreteGridPosToID,)),
         X("x_cell_lookup", x_cell_lookup, parts=[{"shape": s} for s in shapes], labels=("inside", "outside"), timeout=300,
           group=4, encoded=enc[:2], bounds={"extents": "0..%d" % M, "coordinates": "all ints"}),
     ]
